@@ -72,7 +72,7 @@ def run_harness(ctx, grp, h):
     cap = int(h.get("cap", plan.CAPS[ctx.tier]))
     mem = float(h.get("mem", plan.MEM_GB[ctx.tier]))
     cmd = ["/usr/bin/time", "-f", "VERIF_RSS_KB %M", "cargo", "kani", "--harness", full, "--exact",
-           "-Z", "concrete-playback", "--concrete-playback=print", "--target-dir", tdir]
+           "-Z", "concrete-playback", "--concrete-playback=print", "--no-assertion-reach-checks", "--target-dir", tdir]
     if h.get("stub") == "1":
         cmd += ["-Z", "stubbing"]
     if h.get("solver"):
